@@ -8,9 +8,11 @@ No transcript harness: the decision procedure is
      table_sound, facts_comply / fields_covered / unresolved_reviewed (decided over the regenerated
      facts against the hand-written table lean/Refinery/Model/LocksTable.lean);
   3. lean/Oracle/Locks.lean (interpreted) names every fact that does not comply;
-  4. search aid: harness/cmd/races (real components, `go build -race`): thorough tier always, quick
-     tier only when step 2/3 found something that is not a listed finding.  A race report is the
-     replay; it is classified through the access facts of the two racing source lines.
+  4. harness/cmd/races (real components, `go build -race`): quick tier = every scenario once for
+     0.8 s (in the background, while Lean builds) plus a longer directed run when step 2/3 found
+     something unlisted; thorough = every scenario twice for 4 s.  A race report is the replay; it is
+     classified through the access facts of the two racing source lines.  A run that times out is
+     inconclusive (evidence), never an alarm.
 """
 import hashlib, json, os, re, shutil, subprocess, time
 
@@ -79,6 +81,60 @@ def parse_race_reports(text, repo):
     return out
 
 
+QUICK_MS = 800          # per scenario in the quick tier (the seeded aliasing bug shows in 200 ms)
+QUICK_PARALLEL = 3
+QUICK_TIMEOUT = 90      # a run that is merely slow under load is inconclusive, never an alarm
+
+
+def run_scenarios(vc, rbin, workdir, scenarios, ms, rd, seed, procs, parallel, timeout):
+    """-> (race reports, {scenario#round: last output lines}, inconclusive runs, completed runs)"""
+    from concurrent.futures import ThreadPoolExecutor
+
+    def one(sc):
+        tag = "race-%s-%d-%d" % (sc, rd, ms)
+        logp = os.path.join(workdir, tag)
+        env = dict(os.environ, GORACE="halt_on_error=0 exitcode=0 history_size=3 log_path=" + logp)
+        timed_out = False
+        try:
+            p = subprocess.run([rbin, "-ms", str(ms), "-seed", str(seed + rd), "-procs", str(procs), "-scenario", sc],
+                               stdout=subprocess.PIPE, stderr=subprocess.STDOUT, text=True, env=env, timeout=timeout)
+            out = p.stdout
+        except subprocess.TimeoutExpired as e:
+            out = e.stdout.decode("utf-8", "replace") if isinstance(e.stdout, bytes) else (e.stdout or "")
+            timed_out = True
+        text = ""
+        for fn in os.listdir(workdir):
+            if fn.startswith(tag + "."):
+                text += open(os.path.join(workdir, fn)).read()
+        reps = []
+        for rep in parse_race_reports(text, vc.REPO):      # a report written before a timeout is still a report
+            rep["scenario"] = sc
+            reps.append(rep)
+        crashed = ("fatal error: " in out) or ("panic=" in out) or ("\npanic: " in out) or out.startswith("panic: ")
+        inc = None
+        if crashed:          # the real code crashed (concurrent map access, index out of range, …)
+            m = re.search(r"(fatal error: [^\n]*|panic[=:] ?[^\n]*)", out)
+            frames = [(a, os.path.relpath(b, vc.REPO), int(c)) for a, b, c in
+                      re.findall(r"\n(\S+)\([^\n]*\)\n\s+(%s/\S+):(\d+)" % re.escape(vc.REPO), out)
+                      if "/cmd/vh_" not in b]
+            reps.append({"scenario": sc, "text": out[-6000:], "fatal": m.group(0) if m else "crash",
+                         "accesses": [{"head": "fatal", "frames": frames[:6]}, {"head": "fatal", "frames": []}]})
+        elif timed_out or "RACES-DONE" not in out:
+            inc = "%s#%d (%d ms): %s" % (sc, rd, ms, "timed out after %d s" % timeout if timed_out else "did not finish")
+        return sc, reps, out.strip().splitlines()[-3:], inc
+
+    reports, outs, incs, done = [], {}, [], 0
+    with ThreadPoolExecutor(max_workers=max(1, parallel)) as ex:
+        for sc, reps, tail, inc in ex.map(one, scenarios):
+            reports.extend(reps)
+            outs["%s#%d@%dms" % (sc, rd, ms)] = tail
+            if inc:
+                incs.append(inc)
+            else:
+                done += 1
+    return reports, outs, incs, done
+
+
 def custom(vc, spec, tier, seed, replay):
     t0 = time.time()
     suffix = "" if vc.REPO == "/repo" else "-" + hashlib.sha1(vc.REPO.encode()).hexdigest()[:10]
@@ -87,6 +143,18 @@ def custom(vc, spec, tier, seed, replay):
     os.makedirs(workdir, exist_ok=True)
     known = vc.load_known()
     known_sigs = {k["signature"]: k for k in known["finding"] if k.get("property") == PROP}
+    # the -race harness is built (and, in the quick tier, every scenario run once) in the background
+    from concurrent.futures import ThreadPoolExecutor as _TPE
+    bg = _TPE(max_workers=2)
+    bg_build = bg.submit(vc.go_build, "races", True)
+    bg_quick = None
+    if tier != "thorough" and not replay:
+        def _quick():
+            rb, _ = bg_build.result()
+            if not rb:
+                return [], {}, [], 0
+            return run_scenarios(vc, rb, workdir, SCENARIOS, QUICK_MS, 0, seed, 8, QUICK_PARALLEL, QUICK_TIMEOUT)
+        bg_quick = bg.submit(_quick)
     broken, violations, known_hit = [], [], {}
     cov = {}
 
@@ -194,55 +262,40 @@ def custom(vc, spec, tier, seed, replay):
         broken.append("unresolved_reviewed: selector .%s in %s could not be resolved and is not reviewed" % (n, fn))
 
     # ---------------------------------------------------------------- 4. race-detector scenarios
-    want = []
-    if replay:
+    # quick: every scenario once, short (QUICK_MS), a few at a time, started in the background right
+    #        at the beginning (see `bg` above) — field-level facts cannot see slice/backing-array
+    #        aliasing, so some dynamic run is always needed; plus, when a static fact fails that is
+    #        not a listed finding, the scenarios of its struct again, longer (directed search).
+    # thorough: every scenario, 4 s, two rounds (8 and 4 Ps), one after the other.
+    races, race_runs, scen_out, inconclusive, want = [], 0, {}, [], []
+
+    def take(res):
+        nonlocal race_runs
+        reps, outs, inc, n = res
+        races.extend(reps)
+        scen_out.update(outs)
+        inconclusive.extend(inc)
+        race_runs += n
+
+    rbin, gout = bg_build.result()
+    if not rbin:
+        broken.append("search:harness-build(vh_races -race) (%s)" % gout[-300:])
+        vc.log(gout[-2000:])
+    elif replay:
         rp = json.load(open(replay))
-        want = rp.get("scenarios") or SCENARIOS
+        take(run_scenarios(vc, rbin, workdir, rp.get("scenarios") or SCENARIOS, 3000, 0, seed, 8, 1, 240))
     elif tier == "thorough":
-        want = list(SCENARIOS)
-    elif new_fails or (broken and extracted):
+        for rd in range(2):
+            take(run_scenarios(vc, rbin, workdir, SCENARIOS, 4000, rd, seed, 8 if rd == 0 else 4, 1, 240))
+    else:
+        take(bg_quick.result())
+        want = []
         for kv in new_fails:
-            for s in STRUCT_SCENARIOS.get(kv["loc"].split(".")[0], []):
-                if s not in want:
-                    want.append(s)
-        if not want and not new_fails:
-            want = []           # nothing to aim at (table / proof problem): no search in the quick tier
-    races, race_runs, race_errs, scen_out = [], 0, [], {}
-    if want:
-        rbin, gout = vc.go_build("races", race=True)
-        if not rbin:
-            broken.append("search:harness-build(vh_races -race) (%s)" % gout[-300:])
-            vc.log(gout[-2000:])
-        else:
-            ms = 4000 if tier == "thorough" else 1500
-            rounds = 2 if tier == "thorough" else 1
-            for rd in range(rounds):
-                for sc in want:
-                    logp = os.path.join(workdir, "race-%s-%d" % (sc, rd))
-                    env = dict(os.environ, GORACE="halt_on_error=0 exitcode=0 history_size=3 log_path=" + logp)
-                    try:
-                        p = subprocess.run([rbin, "-ms", str(ms), "-seed", str(seed + rd), "-procs", str(8 if rd == 0 else 4), "-scenario", sc],
-                                           stdout=subprocess.PIPE, stderr=subprocess.STDOUT, text=True, env=env, timeout=240)
-                        out = p.stdout
-                    except subprocess.TimeoutExpired as e:
-                        out = (e.stdout or "") if isinstance(e.stdout, str) else ""
-                        race_errs.append("scenario %s timed out" % sc)
-                    race_runs += 1
-                    scen_out["%s#%d" % (sc, rd)] = out.strip().splitlines()[-3:]
-                    text = ""
-                    for fn in os.listdir(workdir):
-                        if fn.startswith("race-%s-%d." % (sc, rd)):
-                            text += open(os.path.join(workdir, fn)).read()
-                    for rep in parse_race_reports(text, vc.REPO):
-                        rep["scenario"] = sc
-                        races.append(rep)
-                    if "fatal error: concurrent map" in out or "panic=" in out or ("RACES-DONE" not in out):
-                        m = re.search(r"fatal error: [^\n]*", out)
-                        frames = [(a, os.path.relpath(b, vc.REPO), int(c)) for a, b, c in
-                                  re.findall(r"\n(\S+)\([^\n]*\)\n\s+(%s/\S+):(\d+)" % re.escape(vc.REPO), out)
-                                  if "/cmd/vh_" not in b]
-                        races.append({"scenario": sc, "text": out[-6000:], "fatal": (m.group(0) if m else "scenario did not finish"),
-                                      "accesses": [{"head": "fatal", "frames": frames[:6]}, {"head": "fatal", "frames": []}]})
+            for sc in STRUCT_SCENARIOS.get(kv["loc"].split(".")[0], []):
+                if sc not in want:
+                    want.append(sc)
+        if want:
+            take(run_scenarios(vc, rbin, workdir, want, 1500, 1, seed, 8, 1, 240))
     # classify race reports through the access facts of the two racing lines
     race_new, race_known = {}, {}
     for rep in races:
@@ -286,8 +339,6 @@ def custom(vc, spec, tier, seed, replay):
     for s, rep in race_known.items():
         known_hit[s] = "race detector (%s scenario): %s / %s" % (
             rep["scenario"], *[(short(a["frames"][0][0]) + " " + "%s:%d" % a["frames"][0][1:]) if a["frames"] else "?" for a in rep["accesses"]])
-    for e in race_errs:
-        broken.append("search:" + e)
 
     # ---------------------------------------------------------------- 5. decide
     for sig, rep in race_new.items():
@@ -360,6 +411,8 @@ def custom(vc, spec, tier, seed, replay):
         "distinct_nontrivial": nfacts,
         "rule": spec["rule"],
         "traces_validated_against_impl": race_runs,
+        "race_runs": {"completed": race_runs, "inconclusive": inconclusive,
+                      "quick_ms_per_scenario": QUICK_MS, "scenarios": SCENARIOS if (tier == "thorough" or bg_quick) else sorted(scen_out)},
         "fact_stats": stats,
         "analysed_files": len(extracted["files"]) if extracted else 0,
         "tracked_fields": len(extracted["fields"]) if extracted else 0,
@@ -396,7 +449,8 @@ SPEC = dict(
          "factComplies against the discipline of its field (in the kernel by facts_comply, and again by the interpreted "
          "report tool that names failures); non-trivial = the verdict depends on synchronisation, i.e. anything but a plain "
          "read of an init-only field (counted by the report tool); evaluations = distinct facts; "
-         "traces_validated_against_impl = race-detector scenario runs of this run (0 in a clean quick run)",
+         "traces_validated_against_impl = race-detector scenario runs completed in this run (quick: every scenario once for 0.8 s; "
+         "thorough: every scenario twice for 4 s; runs that time out under load are listed as inconclusive, not counted)",
     trusted_base=[
         "harness/locks-extract: lexical extraction (go/parser, go/ast, go/types with a stub importer); a dynamic access is assumed to be an "
         "instance of an extracted fact (Lean: structure Instance) — no aliasing, no inter-procedural lock passing except the `requires` "
